@@ -9,7 +9,7 @@ Open Scope string_scope.
 
 (* contents travel as (length, polynomial checksum): complete enough to compare, small to print *)
 Definition chk (c : content) : N :=
-  fold_left (fun h b => ((h * 257 + b + 1) mod 1000000007)%N) c 0%N.
+  snd (fold_left (fun st b => let '(i, acc) := st in (N.succ i, (acc + i * (b + 1))%N)) c (1%N, 0%N)).
 
 Definition rep (n : N) (pat : content) : content := N.iter n (fun acc => (pat ++ acc)%list) [].
 
